@@ -1,9 +1,12 @@
-// Package c14: concurrent clients against the REAL daemon (server/daemon: TLS listener, http.Server, graceful Close) with real
-// file tokens, key cache expiry 1 s, token rate limiting, health loop, audit file. Built with -race.
+// Package c14: concurrent clients against the REAL daemon (server/daemon: TLS listener, http.Server, graceful Close) with
+// instrumented file tokens (production wiring: metrics -> rate limiter -> key cache), key cache expiry 1 s, token rate
+// limiting, a timestamp-configured key with a counting timestamp authority, health loop, audit file. Built with -race.
 package c14
 
 import (
 	"bytes"
+	"context"
+	"crypto"
 	"crypto/rand"
 	"crypto/rsa"
 	"crypto/tls"
@@ -16,9 +19,11 @@ import (
 	mrand "math/rand"
 	"net"
 	"net/http"
+	"net/http/httptest"
 	"net/url"
 	"os"
 	"path/filepath"
+	"sort"
 	"strings"
 	"sync"
 	"sync/atomic"
@@ -31,32 +36,161 @@ import (
 
 	"github.com/sassoftware/relic/v8/cmdline/shared"
 	"github.com/sassoftware/relic/v8/config"
+	"github.com/sassoftware/relic/v8/lib/authenticode"
+	"github.com/sassoftware/relic/v8/lib/binpatch"
+	"github.com/sassoftware/relic/v8/lib/passprompt"
 	"github.com/sassoftware/relic/v8/server/daemon"
+	"github.com/sassoftware/relic/v8/token"
+	"github.com/sassoftware/relic/v8/token/filetoken"
 	_ "github.com/sassoftware/relic/v8/verifharness/allsigners"
 	"github.com/sassoftware/relic/v8/verifharness/core"
 )
 
 const keysDir = "/repo/functest/testkeys"
 
+type tokOp struct {
+	Kind  string `json:"kind"`
+	Start int64  `json:"start"`
+	End   int64  `json:"end"`
+}
+type tokReport struct {
+	Name     string  `json:"name"`
+	Ops      []tokOp `json:"ops"`
+	ClosedAt int64   `json:"closed_at"` // 0: never closed
+	Closes   int     `json:"closes"`
+}
+
 type result struct {
-	Phase        string         `json:"phase"`
-	Requests     int            `json:"requests"`
-	ByKind       map[string]int `json:"by_kind"`
-	OK2xx        int            `json:"ok_2xx"`
-	Refused      int            `json:"refused_conn"` // connection-level failures (expected only after shutdown began)
-	BadStatus    []string       `json:"bad_status"`   // unexpected statuses
-	WrongSig     []string       `json:"wrong_sig"`    // signature does not verify over THIS request's body under THIS request's key
-	CrossKey     []string       `json:"cross_key"`    // signature verifies under the OTHER key
-	Truncated    []string       `json:"truncated"`
-	ListMismatch []string       `json:"list_mismatch"`
-	AuditLines   int            `json:"audit_lines"`
-	AuditBad     []string       `json:"audit_bad"`
-	AuditMissing int            `json:"audit_missing"` // 2xx sign responses without a matching record
-	InFlightAtClose int         `json:"in_flight_at_close"`
-	CompletedAfterClose int     `json:"completed_after_close"`
-	FailedInFlight []string     `json:"failed_in_flight"` // requests accepted before Close that did not complete properly
-	CloseMs      int64          `json:"close_ms"`
-	HealthBad    int            `json:"health_bad"`
+	Phase               string         `json:"phase"`
+	Requests            int            `json:"requests"`
+	ByKind              map[string]int `json:"by_kind"`
+	OK2xx               int            `json:"ok_2xx"`
+	Refused             int            `json:"refused_conn"` // connection-level failures (expected only after shutdown began)
+	BadStatus           []string       `json:"bad_status"`   // unexpected statuses
+	WrongSig            []string       `json:"wrong_sig"`    // signature does not verify over THIS request's body under THIS request's key
+	CrossKey            []string       `json:"cross_key"`    // signature verifies under the OTHER key
+	Truncated           []string       `json:"truncated"`
+	ListMismatch        []string       `json:"list_mismatch"`
+	AuditLines          int            `json:"audit_lines"`
+	AuditBad            []string       `json:"audit_bad"`
+	AuditMissing        int            `json:"audit_missing"` // 2xx sign responses without exactly one matching record
+	InFlightAtClose     int            `json:"in_flight_at_close"`
+	CompletedAfterClose int            `json:"completed_after_close"`
+	FailedInFlight      []string       `json:"failed_in_flight"` // requests accepted before Close that did not complete properly
+	CloseMs             int64          `json:"close_ms"`
+	HealthBad           int            `json:"health_bad"`
+	// options isolation (timestamp-configured key, counting timestamp authority)
+	TsaHitsPerDefault int      `json:"tsa_hits_per_default"`
+	TsaHits           int      `json:"tsa_hits"`
+	TsDefaultDone     int      `json:"ts_default_done"`    // default-option requests on the timestamping key that got a response
+	TsDefaultUnknown  int      `json:"ts_default_unknown"` // ... that ended with a transport error (shutdown)
+	OptionLeak        []string `json:"option_leak"`        // a no-timestamp request that did not behave as in isolation
+	// shutdown with requests in flight
+	Stalled      int         `json:"stalled"`    // requests whose body was half sent when Close was called
+	StalledOK    int         `json:"stalled_ok"` // ... that completed with a valid signature over their own body
+	StalledBad   []string    `json:"stalled_bad"`
+	SlowInFlight int         `json:"slow_in_flight"` // requests inside a slow token operation when Close was called
+	SlowOK       int         `json:"slow_ok"`
+	CloseCalled  int64       `json:"close_called"` // ns since start
+	CloseReturn  int64       `json:"close_returned"`
+	LastResponse int64       `json:"last_response"` // ns since start of the last successful response
+	Tokens       []tokReport `json:"tokens"`
+	RateLimit    float64     `json:"ratelimit"`
+	RateBurst    int         `json:"rateburst"`
+	ExpiryPhases int         `json:"expiry_phases"` // number of pauses longer than the key cache expiry between bursts
+	RateReqs     [][2]int64  `json:"rate_reqs"`     // (start, end) of every completed signing request on the rate-limited token
+}
+
+// ---- instrumented token type: a file token whose operations are timed and can be slowed down
+type iTok struct {
+	token.Token
+	name      string
+	t0        time.Time
+	signDelay time.Duration
+	inSign    int32
+	mu        sync.Mutex
+	ops       []tokOp
+	closedAt  int64
+	closes    int
+}
+
+func (t *iTok) rec(kind string, start time.Time) {
+	t.mu.Lock()
+	t.ops = append(t.ops, tokOp{kind, start.Sub(t.t0).Nanoseconds(), time.Since(t.t0).Nanoseconds()})
+	t.mu.Unlock()
+}
+func (t *iTok) GetKey(ctx context.Context, name string) (token.Key, error) {
+	s := time.Now()
+	k, err := t.Token.GetKey(ctx, name)
+	t.rec("getkey", s)
+	if err != nil {
+		return nil, err
+	}
+	return &iKey{k, t}, nil
+}
+func (t *iTok) Ping(ctx context.Context) error {
+	s := time.Now()
+	err := t.Token.Ping(ctx)
+	t.rec("ping", s)
+	return err
+}
+func (t *iTok) Close() error {
+	t.mu.Lock()
+	if t.closedAt == 0 {
+		t.closedAt = time.Since(t.t0).Nanoseconds()
+	}
+	t.closes++
+	t.mu.Unlock()
+	return t.Token.Close()
+}
+
+type iKey struct {
+	token.Key
+	t *iTok
+}
+
+func (k *iKey) Sign(r io.Reader, d []byte, o crypto.SignerOpts) ([]byte, error) {
+	s := time.Now()
+	atomic.AddInt32(&k.t.inSign, 1)
+	defer atomic.AddInt32(&k.t.inSign, -1)
+	if k.t.signDelay > 0 {
+		time.Sleep(k.t.signDelay)
+	}
+	sig, err := k.Key.Sign(r, d, o)
+	k.t.rec("sign", s)
+	return sig, err
+}
+func (k *iKey) SignContext(ctx context.Context, d []byte, o crypto.SignerOpts) ([]byte, error) {
+	s := time.Now()
+	atomic.AddInt32(&k.t.inSign, 1)
+	defer atomic.AddInt32(&k.t.inSign, -1)
+	if k.t.signDelay > 0 {
+		time.Sleep(k.t.signDelay)
+	}
+	sig, err := k.Key.SignContext(ctx, d, o)
+	k.t.rec("sign", s)
+	return sig, err
+}
+
+var (
+	instrMu    sync.Mutex
+	instr      = map[string]*iTok{}
+	instrT0    time.Time
+	instrDelay = map[string]time.Duration{}
+)
+
+func init() {
+	token.Openers["verifslow"] = func(cfg *config.Config, name string, prompt passprompt.PasswordGetter) (token.Token, error) {
+		base, err := filetoken.Open(cfg, name, prompt)
+		if err != nil {
+			return nil, err
+		}
+		instrMu.Lock()
+		defer instrMu.Unlock()
+		it := &iTok{Token: base, name: name, t0: instrT0, signDelay: instrDelay[name]}
+		instr[name] = it
+		return it, nil
+	}
 }
 
 func newEntity(name string) (*openpgp.Entity, *rsa.PrivateKey, error) {
@@ -102,6 +236,55 @@ func freePort() int {
 	return p
 }
 
+func certDER(path string) []byte {
+	b, _ := os.ReadFile(path)
+	blk, _ := pem.Decode(b)
+	if blk == nil {
+		return nil
+	}
+	return blk.Bytes
+}
+
+// verifyPS: the returned binary patch applied to THIS request's script yields a script whose authenticode signature
+// verifies, was made with wantCert, and carries a countersignature iff wantTS
+func verifyPS(dir, tag string, script, blob, wantCert []byte, wantTS bool) error {
+	patch, err := binpatch.Load(blob)
+	if err != nil {
+		return fmt.Errorf("response is not a binpatch: %w", err)
+	}
+	in := filepath.Join(dir, "ps-"+tag+".in")
+	out := filepath.Join(dir, "ps-"+tag+".out")
+	defer os.Remove(in)
+	defer os.Remove(out)
+	if err := os.WriteFile(in, script, 0o600); err != nil {
+		return err
+	}
+	inf, err := os.Open(in)
+	if err != nil {
+		return err
+	}
+	defer inf.Close()
+	if err := patch.Apply(inf, out); err != nil {
+		return err
+	}
+	outf, err := os.Open(out)
+	if err != nil {
+		return err
+	}
+	defer outf.Close()
+	sig, err := authenticode.VerifyPowershell(outf, authenticode.SigStyleHash, false)
+	if err != nil {
+		return fmt.Errorf("signature does not verify over this request's body: %w", err)
+	}
+	if sig.Certificate == nil || !bytes.Equal(sig.Certificate.Raw, wantCert) {
+		return fmt.Errorf("signature made with another key's certificate")
+	}
+	if (sig.CounterSignature != nil) != wantTS {
+		return fmt.Errorf("countersignature present=%v, request asked for %v", sig.CounterSignature != nil, wantTS)
+	}
+	return nil
+}
+
 func init() {
 	core.Register("c14", func(c *core.Ctx) error {
 		zerolog.SetGlobalLevel(zerolog.Disabled)
@@ -117,15 +300,36 @@ func init() {
 			return err
 		}
 		ring2 := openpgp.EntityList{ent2}
+		cert1, cert2 := certDER(keysDir+"/rsa2048.crt"), certDER(c2)
 		audit := filepath.Join(dir, "audit.log")
 		os.Remove(audit)
 		port := freePort()
+		// the timestamp authority: reachable, broken (500), counts its requests
+		var tsaHits int32
+		tsa := httptest.NewServer(http.HandlerFunc(func(rw http.ResponseWriter, r *http.Request) {
+			io.Copy(io.Discard, r.Body)
+			atomic.AddInt32(&tsaHits, 1)
+			http.Error(rw, "timestamp authority is down", http.StatusInternalServerError)
+		}))
+		defer tsa.Close()
+		start := time.Now()
+		since := func() int64 { return time.Since(start).Nanoseconds() }
+		instrMu.Lock()
+		instr = map[string]*iTok{}
+		instrT0 = start
+		instrDelay = map[string]time.Duration{"slow": 250 * time.Millisecond}
+		instrMu.Unlock()
+		const rateLimit, rateBurst = 40.0, 3
 		var sb strings.Builder
-		fmt.Fprintf(&sb, "tokens:\n  file:\n    type: file\n  file2:\n    type: file\n    ratelimit: 400\n    rateburst: 5\nkeys:\n")
+		fmt.Fprintf(&sb, "tokens:\n  file:\n    type: verifslow\n  file2:\n    type: verifslow\n    ratelimit: %v\n    rateburst: %d\n  slow:\n    type: verifslow\n  neg:\n    type: verifslow\n    ratelimit: -1\n    rateburst: 1\nkeys:\n", rateLimit, rateBurst)
 		fmt.Fprintf(&sb, "  rsa2048:\n    token: file\n    keyfile: %s/rsa2048.key\n    pgpcertificate: %s/rsa2048.pgp\n    x509certificate: %s/rsa2048.crt\n    roles: [client]\n", keysDir, keysDir, keysDir)
 		fmt.Fprintf(&sb, "  keytwo:\n    token: file2\n    keyfile: %s\n    pgpcertificate: %s\n    x509certificate: %s\n    roles: [client]\n", k2, p2, c2)
+		fmt.Fprintf(&sb, "  slowkey:\n    token: slow\n    keyfile: %s\n    x509certificate: %s\n    roles: [client]\n", k2, c2)
+		fmt.Fprintf(&sb, "  negkey:\n    token: neg\n    keyfile: %s\n    x509certificate: %s\n    roles: [client]\n", k2, c2)
+		fmt.Fprintf(&sb, "  tskey:\n    token: file\n    keyfile: %s/rsa2048.key\n    x509certificate: %s/rsa2048.crt\n    timestamp: true\n    roles: [client]\n", keysDir, keysDir)
 		fmt.Fprintf(&sb, "  alias-two:\n    alias: keytwo\n  hidden:\n    token: file\n    keyfile: %s/rsa2048.key\n    x509certificate: %s/rsa2048.crt\n    roles: [client]\n    hide: true\n  foreign:\n    token: file\n    keyfile: %s/rsa2048.key\n    x509certificate: %s/rsa2048.crt\n    roles: [other]\n", keysDir, keysDir, keysDir, keysDir)
 		fmt.Fprintf(&sb, "clients:\n  426886bcf5dedbd73f78477d5151738e39c245c27c3cae792503592ae4417c59:\n    nickname: functest\n    roles: [client]\n")
+		fmt.Fprintf(&sb, "timestamp:\n  urls: [\"%s/tsa\"]\n  timeout: 5\n", tsa.URL)
 		fmt.Fprintf(&sb, "server:\n  listen: \"127.0.0.1:%d\"\n  keyfile: %s/server.key\n  certfile: %s/server.crt\n  tokencacheseconds: 1\n  tokencheckinterval: 1\n  tokenchecktimeout: 2\nauditfile: %s\n", port, keysDir, keysDir, audit)
 		cp := filepath.Join(dir, "server.yml")
 		os.WriteFile(cp, []byte(sb.String()), 0o644)
@@ -160,12 +364,11 @@ func init() {
 			}
 			time.Sleep(50 * time.Millisecond)
 		}
-		ps1, _ := os.ReadFile("/repo/functest/packages/hello.ps1")
-		workers, per := 16, 25
+		workers, per := 16, 22
 		if c.Tier == "thorough" {
-			workers, per = 48, 120
+			workers, per = 48, 100
 		}
-		res := &result{Phase: "steady+shutdown", ByKind: map[string]int{}}
+		res := &result{Phase: "baseline+burst+expiry+burst+shutdown", ByKind: map[string]int{}, RateLimit: rateLimit, RateBurst: rateBurst}
 		var mu sync.Mutex
 		var closing int32
 		var inflight int32
@@ -177,146 +380,465 @@ func init() {
 			}
 			mu.Unlock()
 		}
-		var wg sync.WaitGroup
-		closeAt := time.Duration(600+int(c.Seed%5)*150) * time.Millisecond
-		start := time.Now()
-		for w := 0; w < workers; w++ {
-			w := w
-			wg.Add(1)
-			go func() {
-				defer wg.Done()
-				cl := mkClient()
-				rnd := mrand.New(mrand.NewSource(int64(c.Seed)*1000 + int64(w)))
-				for i := 0; i < per; i++ {
-					kind := []string{"sign-pgp", "sign-pgp", "sign-pgp", "sign-ps", "list", "getkey", "health", "sign-denied"}[rnd.Intn(8)]
-					key := []string{"rsa2048", "keytwo", "alias-two"}[rnd.Intn(3)]
-					digest := []string{"sha256", "sha384", "sha512"}[rnd.Intn(3)]
-					fn := fmt.Sprintf("w%02d-%03d-%s", w, i, kind)
-					body := []byte(fmt.Sprintf("body of %s key %s digest %s %s", fn, key, digest, strings.Repeat("z", rnd.Intn(3000))))
-					var req *http.Request
-					switch kind {
-					case "sign-pgp":
-						q := url.Values{"key": {key}, "sigtype": {"pgp"}, "filename": {fn}, "digest": {digest}}
-						req, _ = http.NewRequest("POST", base+"/sign?"+q.Encode(), bytes.NewReader(body))
-					case "sign-ps":
-						q := url.Values{"key": {key}, "sigtype": {"ps"}, "filename": {fn}, "ps-style": {".ps1"}}
-						req, _ = http.NewRequest("POST", base+"/sign?"+q.Encode(), bytes.NewReader(ps1))
-					case "sign-denied":
-						q := url.Values{"key": {"foreign"}, "sigtype": {"pgp"}, "filename": {fn}}
-						req, _ = http.NewRequest("POST", base+"/sign?"+q.Encode(), bytes.NewReader(body))
-					case "list":
-						req, _ = http.NewRequest("GET", base+"/list_keys", nil)
-					case "getkey":
-						req, _ = http.NewRequest("GET", base+"/keys/"+key, nil)
-					case "health":
-						req, _ = http.NewRequest("GET", base+"/health", nil)
+		psScript := func(fn string) []byte { return []byte("Write-Host \"hello from " + fn + "\"\r\n") }
+		psCert := func(key string) []byte {
+			if key == "rsa2048" || key == "tskey" {
+				return cert1
+			}
+			return cert2
+		}
+		signURL := func(key, sigtype, fn string, extra url.Values) string {
+			q := url.Values{"key": {key}, "sigtype": {sigtype}, "filename": {fn}}
+			for k, v := range extra {
+				q[k] = v
+			}
+			return base + "/sign?" + q.Encode()
+		}
+		noteSigned := func(fn, key string) { mu.Lock(); signedNames[fn] = key; res.LastResponse = since(); mu.Unlock() }
+
+		// ---------------- phase 0: what each option gets in isolation, then sequence and overlap on the SAME key
+		cl0 := mkClient()
+		doTS := func(fn string, noTS bool, body io.Reader) (int, []byte, error) {
+			extra := url.Values{"ps-style": {".ps1"}}
+			if noTS {
+				extra["no-timestamp"] = []string{"true"}
+			}
+			req, _ := http.NewRequest("POST", signURL("tskey", "ps", fn, extra), body)
+			resp, err := cl0.Do(req)
+			if err != nil {
+				return 0, nil, err
+			}
+			rb, _ := io.ReadAll(resp.Body)
+			resp.Body.Close()
+			return resp.StatusCode, rb, nil
+		}
+		checkNoTS := func(fn string, code int, rb []byte, err error, hitsBefore int32) {
+			if err != nil {
+				add(&res.OptionLeak, fn+": transport error "+err.Error())
+				return
+			}
+			if code != 200 {
+				add(&res.OptionLeak, fmt.Sprintf("%s: no-timestamp request got HTTP %d %.80q (in isolation: 200)", fn, code, rb))
+				return
+			}
+			if e := verifyPS(dir, fn, psScript(fn), rb, cert1, false); e != nil {
+				add(&res.OptionLeak, fn+": "+e.Error())
+			}
+			noteSigned(fn, "tskey")
+			if h := atomic.LoadInt32(&tsaHits) - hitsBefore; hitsBefore >= 0 && h != 0 {
+				add(&res.OptionLeak, fmt.Sprintf("%s: no-timestamp request caused %d timestamp authority request(s)", fn, h))
+			}
+		}
+		{
+			h0 := atomic.LoadInt32(&tsaHits)
+			code, rb, err := doTS("iso-nots", true, bytes.NewReader(psScript("iso-nots")))
+			checkNoTS("iso-nots", code, rb, err, h0)
+			h0 = atomic.LoadInt32(&tsaHits)
+			code, rb, err = doTS("iso-default", false, bytes.NewReader(psScript("iso-default")))
+			res.TsaHitsPerDefault = int(atomic.LoadInt32(&tsaHits) - h0)
+			if err != nil || code == 200 || res.TsaHitsPerDefault < 1 {
+				add(&res.BadStatus, fmt.Sprintf("iso-default: expected a timestamping failure after >=1 request to the authority, got HTTP %d err %v hits %d", code, err, res.TsaHitsPerDefault))
+			}
+			res.TsDefaultDone++
+			// sequence: the same key again, now without timestamp
+			h0 = atomic.LoadInt32(&tsaHits)
+			code, rb, err = doTS("seq-nots", true, bytes.NewReader(psScript("seq-nots")))
+			checkNoTS("seq-nots", code, rb, err, h0)
+			// overlap: a no-timestamp request is reading its body when a default request for the same key is served
+			pr, pw := io.Pipe()
+			type r3 struct {
+				code int
+				rb   []byte
+				err  error
+			}
+			ch := make(chan r3, 1)
+			script := psScript("ovl-nots")
+			go func() { code, rb, err := doTS("ovl-nots", true, pr); ch <- r3{code, rb, err} }()
+			pw.Write(script[:10])
+			time.Sleep(60 * time.Millisecond)
+			h0 = atomic.LoadInt32(&tsaHits)
+			doTS("ovl-default", false, bytes.NewReader(psScript("ovl-default")))
+			res.TsDefaultDone++
+			hDefault := atomic.LoadInt32(&tsaHits) - h0
+			pw.Write(script[10:])
+			pw.Close()
+			o := <-ch
+			checkNoTS("ovl-nots", o.code, o.rb, o.err, -1)
+			if extra := atomic.LoadInt32(&tsaHits) - h0 - hDefault; extra != 0 || int(hDefault) != res.TsaHitsPerDefault {
+				add(&res.OptionLeak, fmt.Sprintf("ovl-nots: %d timestamp authority request(s) beyond the %d of the overlapping default request (expected %d)", extra, hDefault, res.TsaHitsPerDefault))
+			}
+			mu.Lock()
+			res.Requests += 5
+			res.ByKind["baseline-ts"] += 5
+			res.OK2xx += 3
+			mu.Unlock()
+		}
+
+		// ---------------- concurrent bursts
+		oneRequest := func(cl *http.Client, rnd *mrand.Rand, w, i int, tag string) (stop bool) {
+			kind := []string{"sign-pgp", "sign-pgp", "sign-pgp", "sign-ps", "sign-ps", "sign-ts", "sign-ts-default", "list", "getkey", "health", "sign-denied", "sign-neg"}[rnd.Intn(12)]
+			key := []string{"rsa2048", "keytwo", "alias-two"}[rnd.Intn(3)]
+			digest := []string{"sha256", "sha384", "sha512"}[rnd.Intn(3)]
+			fn := fmt.Sprintf("%s-w%02d-%03d-%s", tag, w, i, kind)
+			body := []byte(fmt.Sprintf("body of %s key %s digest %s %s", fn, key, digest, strings.Repeat("z", rnd.Intn(3000))))
+			var req *http.Request
+			switch kind {
+			case "sign-pgp":
+				req, _ = http.NewRequest("POST", signURL(key, "pgp", fn, url.Values{"digest": {digest}}), bytes.NewReader(body))
+			case "sign-ps":
+				body = psScript(fn)
+				req, _ = http.NewRequest("POST", signURL(key, "ps", fn, url.Values{"ps-style": {".ps1"}, "digest": {digest}}), bytes.NewReader(body))
+			case "sign-neg": // a token configured with a negative rate limit: the server must not build a limiter for it
+				body = psScript(fn)
+				key = "negkey"
+				req, _ = http.NewRequest("POST", signURL("negkey", "ps", fn, url.Values{"ps-style": {".ps1"}}), bytes.NewReader(body))
+			case "sign-ts":
+				body = psScript(fn)
+				req, _ = http.NewRequest("POST", signURL("tskey", "ps", fn, url.Values{"ps-style": {".ps1"}, "no-timestamp": {"true"}}), bytes.NewReader(body))
+			case "sign-ts-default":
+				body = psScript(fn)
+				req, _ = http.NewRequest("POST", signURL("tskey", "ps", fn, url.Values{"ps-style": {".ps1"}}), bytes.NewReader(body))
+			case "sign-denied":
+				req, _ = http.NewRequest("POST", signURL("foreign", "pgp", fn, nil), bytes.NewReader(body))
+			case "list":
+				req, _ = http.NewRequest("GET", base+"/list_keys", nil)
+			case "getkey":
+				req, _ = http.NewRequest("GET", base+"/keys/"+key, nil)
+			case "health":
+				req, _ = http.NewRequest("GET", base+"/health", nil)
+			}
+			wasClosing := atomic.LoadInt32(&closing) != 0
+			atomic.AddInt32(&inflight, 1)
+			reqStart := since()
+			resp, err := cl.Do(req)
+			var rb []byte
+			var rerr error
+			if err == nil {
+				rb, rerr = io.ReadAll(resp.Body)
+				resp.Body.Close()
+			}
+			atomic.AddInt32(&inflight, -1)
+			mu.Lock()
+			res.Requests++
+			res.ByKind[kind]++
+			mu.Unlock()
+			if err != nil {
+				if kind == "sign-ts-default" {
+					mu.Lock()
+					res.TsDefaultUnknown++
+					mu.Unlock()
+				}
+				if wasClosing || atomic.LoadInt32(&closing) != 0 {
+					mu.Lock()
+					res.Refused++
+					mu.Unlock()
+					if !wasClosing && !strings.Contains(err.Error(), "refused") && !strings.Contains(err.Error(), "EOF") && !strings.Contains(err.Error(), "reset") && !strings.Contains(err.Error(), "closed") {
+						add(&res.FailedInFlight, fn+": "+err.Error())
 					}
-					wasClosing := atomic.LoadInt32(&closing) != 0
-					atomic.AddInt32(&inflight, 1)
-					resp, err := cl.Do(req)
-					var rb []byte
-					var rerr error
-					if err == nil {
-						rb, rerr = io.ReadAll(resp.Body)
+					return true // server is going away
+				}
+				add(&res.BadStatus, fn+": transport error before shutdown: "+err.Error())
+				return false
+			}
+			if rerr != nil {
+				add(&res.Truncated, fn+": "+rerr.Error())
+				return false
+			}
+			if atomic.LoadInt32(&closing) != 0 {
+				mu.Lock()
+				res.CompletedAfterClose++
+				mu.Unlock()
+			}
+			if kind == "sign-ts-default" {
+				mu.Lock()
+				res.TsDefaultDone++
+				mu.Unlock()
+				if resp.StatusCode == 200 {
+					add(&res.BadStatus, fn+": default request on the timestamping key succeeded although the authority is down")
+				}
+				return false
+			}
+			want := 200
+			if kind == "sign-denied" {
+				want = 403
+			}
+			if resp.StatusCode != want {
+				if kind == "health" && resp.StatusCode == 503 {
+					mu.Lock()
+					res.HealthBad++
+					mu.Unlock()
+					return false
+				}
+				if kind == "sign-ts" {
+					add(&res.OptionLeak, fmt.Sprintf("%s: no-timestamp request got HTTP %d %.80q (in isolation: 200)", fn, resp.StatusCode, rb))
+					return false
+				}
+				add(&res.BadStatus, fmt.Sprintf("%s: status %d body %.80q", fn, resp.StatusCode, rb))
+				return false
+			}
+			mu.Lock()
+			res.OK2xx++
+			if (kind == "sign-pgp" || kind == "sign-ps") && key != "rsa2048" {
+				res.RateReqs = append(res.RateReqs, [2]int64{reqStart, since()})
+			}
+			mu.Unlock()
+			switch kind {
+			case "sign-pgp":
+				mine, other := ring1, ring2
+				if key != "rsa2048" {
+					mine, other = ring2, ring1
+				}
+				if _, err := openpgp.CheckDetachedSignature(mine, bytes.NewReader(body), bytes.NewReader(rb), nil); err != nil {
+					add(&res.WrongSig, fn+": "+err.Error())
+				}
+				if _, err := openpgp.CheckDetachedSignature(other, bytes.NewReader(body), bytes.NewReader(rb), nil); err == nil {
+					add(&res.CrossKey, fn)
+				}
+				noteSigned(fn, key)
+			case "sign-ps", "sign-neg":
+				if e := verifyPS(dir, fn, body, rb, psCert(key), false); e != nil {
+					add(&res.WrongSig, fn+": "+e.Error())
+				}
+				noteSigned(fn, key)
+			case "sign-ts":
+				if e := verifyPS(dir, fn, body, rb, cert1, false); e != nil {
+					add(&res.OptionLeak, fn+": "+e.Error())
+				}
+				noteSigned(fn, "tskey")
+			case "list":
+				var names []string
+				json.Unmarshal(rb, &names)
+				if strings.Join(names, ",") != "alias-two,keytwo,negkey,rsa2048,slowkey,tskey" {
+					add(&res.ListMismatch, fmt.Sprintf("%s: %v", fn, names))
+				}
+			case "getkey":
+				if !bytes.Contains(rb, []byte("BEGIN CERTIFICATE")) {
+					add(&res.WrongSig, fn+": key info without certificate")
+				}
+			}
+			return false
+		}
+		burst := func(tag string, n int, closeAfter time.Duration) {
+			var wg sync.WaitGroup
+			for w := 0; w < workers; w++ {
+				w := w
+				wg.Add(1)
+				go func() {
+					defer wg.Done()
+					cl := mkClient()
+					rnd := mrand.New(mrand.NewSource(int64(c.Seed)*1000 + int64(w) + int64(len(tag))*77))
+					for i := 0; i < n; i++ {
+						if oneRequest(cl, rnd, w, i, tag) {
+							return
+						}
+					}
+				}()
+			}
+			if closeAfter > 0 {
+				// requests that are provably in flight when Close is called: bodies half sent, and slow token operations
+				time.Sleep(closeAfter)
+				type fl struct {
+					fn     string
+					script []byte
+					pw     *io.PipeWriter
+					ch     chan error
+					key    string
+				}
+				var stalled []*fl
+				for k := 0; k < 3; k++ {
+					key := []string{"rsa2048", "keytwo", "tskey"}[k]
+					f := &fl{fn: fmt.Sprintf("stalled-%d", k), key: key, ch: make(chan error, 1)}
+					f.script = psScript(f.fn)
+					pr, pw := io.Pipe()
+					f.pw = pw
+					extra := url.Values{"ps-style": {".ps1"}}
+					if key == "tskey" {
+						extra["no-timestamp"] = []string{"true"}
+					}
+					req, _ := http.NewRequest("POST", signURL(key, "ps", f.fn, extra), pr)
+					cl := mkClient()
+					go func() {
+						resp, err := cl.Do(req)
+						if err != nil {
+							f.ch <- err
+							return
+						}
+						rb, _ := io.ReadAll(resp.Body)
 						resp.Body.Close()
+						if resp.StatusCode != 200 {
+							f.ch <- fmt.Errorf("HTTP %d %.80q", resp.StatusCode, rb)
+							return
+						}
+						if e := verifyPS(dir, f.fn, f.script, rb, psCert(key), false); e != nil {
+							f.ch <- e
+							return
+						}
+						noteSigned(f.fn, key)
+						f.ch <- nil
+					}()
+					pw.Write(f.script[:12])
+					stalled = append(stalled, f)
+				}
+				slowCh := make(chan error, 2)
+				for k := 0; k < 2; k++ {
+					fn := fmt.Sprintf("slowsign-%d", k)
+					script := psScript(fn)
+					cl := mkClient()
+					go func() {
+						req, _ := http.NewRequest("POST", signURL("slowkey", "ps", fn, url.Values{"ps-style": {".ps1"}}), bytes.NewReader(script))
+						resp, err := cl.Do(req)
+						if err != nil {
+							slowCh <- err
+							return
+						}
+						rb, _ := io.ReadAll(resp.Body)
+						resp.Body.Close()
+						if resp.StatusCode != 200 {
+							slowCh <- fmt.Errorf("%s: HTTP %d %.80q", fn, resp.StatusCode, rb)
+							return
+						}
+						if e := verifyPS(dir, fn, script, rb, cert2, false); e != nil {
+							slowCh <- e
+							return
+						}
+						noteSigned(fn, "slowkey")
+						slowCh <- nil
+					}()
+				}
+				// wait until both slow requests are inside the token (their handlers are provably running), at most 5 s
+				for w := 0; w < 500; w++ {
+					instrMu.Lock()
+					st := instr["slow"]
+					instrMu.Unlock()
+					if st != nil && atomic.LoadInt32(&st.inSign) >= 2 {
+						break
 					}
-					atomic.AddInt32(&inflight, -1)
+					time.Sleep(10 * time.Millisecond)
+				}
+				res.Stalled, res.SlowInFlight = len(stalled), 2
+				res.InFlightAtClose = int(atomic.LoadInt32(&inflight)) + len(stalled) + 2
+				atomic.StoreInt32(&closing, 1)
+				res.CloseCalled = since()
+				closeDone := make(chan error, 1)
+				go func() { closeDone <- d.Close() }()
+				time.Sleep(120 * time.Millisecond)
+				select {
+				case <-closeDone:
+					add(&res.FailedInFlight, "daemon.Close returned while request bodies were still being sent")
+					closeDone <- nil
+				default:
+				}
+				for _, f := range stalled {
+					f.pw.Write(f.script[12:])
+					f.pw.Close()
+				}
+				for _, f := range stalled {
+					select {
+					case e := <-f.ch:
+						if e != nil {
+							add(&res.StalledBad, f.fn+": "+e.Error())
+						} else {
+							res.StalledOK++
+						}
+					case <-time.After(20 * time.Second):
+						add(&res.StalledBad, f.fn+": no response")
+					}
+				}
+				for k := 0; k < 2; k++ {
+					select {
+					case e := <-slowCh:
+						if e != nil {
+							add(&res.StalledBad, "slow: "+e.Error())
+						} else {
+							res.SlowOK++
+						}
+					case <-time.After(20 * time.Second):
+						add(&res.StalledBad, "slow: no response")
+					}
+				}
+				select {
+				case cerr := <-closeDone:
+					if cerr != nil {
+						add(&res.FailedInFlight, "daemon.Close: "+cerr.Error())
+					}
+				case <-time.After(40 * time.Second):
+					add(&res.FailedInFlight, "daemon.Close did not return")
+				}
+				res.CloseReturn = since()
+				res.CloseMs = (res.CloseReturn - res.CloseCalled) / 1e6
+			}
+			wg.Wait()
+		}
+		// a volley on the rate-limited token: 30 signatures requested at once
+		{
+			var wg sync.WaitGroup
+			for k := 0; k < 30; k++ {
+				k := k
+				wg.Add(1)
+				go func() {
+					defer wg.Done()
+					fn := fmt.Sprintf("volley-%02d", k)
+					body := []byte("volley body " + fn)
+					req, _ := http.NewRequest("POST", signURL("keytwo", "pgp", fn, nil), bytes.NewReader(body))
+					cl := mkClient()
+					t0 := since()
+					resp, err := cl.Do(req)
 					mu.Lock()
 					res.Requests++
-					res.ByKind[kind]++
+					res.ByKind["volley"]++
 					mu.Unlock()
 					if err != nil {
-						if wasClosing || atomic.LoadInt32(&closing) != 0 {
-							mu.Lock()
-							res.Refused++
-							mu.Unlock()
-							if !wasClosing && !strings.Contains(err.Error(), "refused") && !strings.Contains(err.Error(), "EOF") && !strings.Contains(err.Error(), "reset") && !strings.Contains(err.Error(), "closed") {
-								add(&res.FailedInFlight, fn+": "+err.Error())
-							}
-							return // server is going away
-						}
-						add(&res.BadStatus, fn+": transport error before shutdown: "+err.Error())
-						continue
+						add(&res.BadStatus, fn+": "+err.Error())
+						return
 					}
-					if rerr != nil {
-						add(&res.Truncated, fn+": "+rerr.Error())
-						continue
-					}
-					if atomic.LoadInt32(&closing) != 0 {
-						mu.Lock()
-						res.CompletedAfterClose++
-						mu.Unlock()
-					}
-					want := 200
-					if kind == "sign-denied" {
-						want = 403
-					}
-					if resp.StatusCode != want {
-						if kind == "health" && resp.StatusCode == 503 {
-							mu.Lock()
-							res.HealthBad++
-							mu.Unlock()
-							continue
-						}
+					rb, _ := io.ReadAll(resp.Body)
+					resp.Body.Close()
+					if resp.StatusCode != 200 {
 						add(&res.BadStatus, fmt.Sprintf("%s: status %d body %.80q", fn, resp.StatusCode, rb))
-						continue
+						return
+					}
+					if _, err := openpgp.CheckDetachedSignature(ring2, bytes.NewReader(body), bytes.NewReader(rb), nil); err != nil {
+						add(&res.WrongSig, fn+": "+err.Error())
 					}
 					mu.Lock()
 					res.OK2xx++
+					res.RateReqs = append(res.RateReqs, [2]int64{t0, since()})
 					mu.Unlock()
-					switch kind {
-					case "sign-pgp":
-						mine, other := ring1, ring2
-						if key != "rsa2048" {
-							mine, other = ring2, ring1
-						}
-						if _, err := openpgp.CheckDetachedSignature(mine, bytes.NewReader(body), bytes.NewReader(rb), nil); err != nil {
-							add(&res.WrongSig, fn+": "+err.Error())
-						}
-						if _, err := openpgp.CheckDetachedSignature(other, bytes.NewReader(body), bytes.NewReader(rb), nil); err == nil {
-							add(&res.CrossKey, fn)
-						}
-						mu.Lock()
-						signedNames[fn] = key
-						mu.Unlock()
-					case "sign-ps":
-						mu.Lock()
-						signedNames[fn] = key
-						mu.Unlock()
-					case "list":
-						var names []string
-						json.Unmarshal(rb, &names)
-						if strings.Join(names, ",") != "alias-two,keytwo,rsa2048" {
-							add(&res.ListMismatch, fmt.Sprintf("%s: %v", fn, names))
-						}
-					case "getkey":
-						if !bytes.Contains(rb, []byte("BEGIN CERTIFICATE")) {
-							add(&res.WrongSig, fn+": key info without certificate")
-						}
-					}
-				}
-			}()
+					noteSigned(fn, "keytwo")
+				}()
+			}
+			wg.Wait()
 		}
-		// shutdown while requests are in flight
-		time.Sleep(closeAt)
-		res.InFlightAtClose = int(atomic.LoadInt32(&inflight))
-		atomic.StoreInt32(&closing, 1)
-		t0 := time.Now()
-		cerr := d.Close()
-		res.CloseMs = time.Since(t0).Milliseconds()
-		if cerr != nil {
-			add(&res.FailedInFlight, "daemon.Close: "+cerr.Error())
-		}
-		wg.Wait()
+		burst("a", per/2, 0)
+		time.Sleep(1150 * time.Millisecond) // longer than the key cache expiry: the next burst starts from expired entries
+		res.ExpiryPhases = 1
+		burst("b", per, time.Duration(250+int(c.Seed%5)*90)*time.Millisecond)
 		select {
 		case <-serveDone:
 		case <-time.After(5 * time.Second):
 			add(&res.FailedInFlight, "Serve did not return after Close")
 		}
-		_ = start
+		res.TsaHits = int(atomic.LoadInt32(&tsaHits))
+		// token instrumentation
+		instrMu.Lock()
+		var names []string
+		for n := range instr {
+			names = append(names, n)
+		}
+		sort.Strings(names)
+		for _, n := range names {
+			it := instr[n]
+			it.mu.Lock()
+			res.Tokens = append(res.Tokens, tokReport{Name: n, Ops: append([]tokOp{}, it.ops...), ClosedAt: it.closedAt, Closes: it.closes})
+			it.mu.Unlock()
+		}
+		instrMu.Unlock()
 		// audit file: one complete JSON object per line; exactly one record per 2xx sign response
 		blob, _ := os.ReadFile(audit)
 		seen := map[string]int{}
+		if len(blob) > 0 && blob[len(blob)-1] != '\n' {
+			add(&res.AuditBad, "file does not end with a newline (torn last record)")
+		}
 		for _, ln := range strings.Split(strings.TrimSuffix(string(blob), "\n"), "\n") {
 			if ln == "" {
 				continue
